@@ -182,6 +182,14 @@ func cmdCheck(args []string) int {
 	extraOverlay = parseOverlay(*ov)
 	cx, err := LoadProgram(*repo, patterns, extraOverlay)
 	loadS := time.Since(tLoad).Seconds()
+	// calibrate the budget of the loop-frame candidates on the machine's speed: loading takes about 2 s on the
+	// development machine (budget 3 s); a machine six times slower gets about 25 s
+	if b := int(1.5*loadS) + 1; b > houdiniBudget {
+		houdiniBudget = b
+		if houdiniBudget > 30 {
+			houdiniBudget = 30
+		}
+	}
 	var viols []violation
 	replayDir := filepath.Join(verifRoot, "replays", *prop)
 	os.MkdirAll(replayDir, 0o755)
